@@ -907,6 +907,17 @@ class Lvalue(Expr):
 
     @property
     def type(self):
+        if not self.array_indices and not self.dotted_vars:
+            # a CONST has the type of its value, not the type its name
+            # would give a variable. (the compiler replaces a CONST by
+            # its value before types matter; the debugger evaluates the
+            # name itself and knows constants as (type, value) pairs)
+            const = self.parent_routine.local_consts.get(self.base_var)
+            if const is None:
+                const = self.context.global_consts.get(self.base_var)
+            if const is not None:
+                return const[0] if isinstance(const, tuple) else const.type
+
         var_type = self.base_type
 
         if var_type.is_array and self.array_indices:
